@@ -41,6 +41,38 @@ def sdf_bound(v, f, p):
     return d.max(1)
 
 
+def surface_points(v, f, m):
+    """about m points on the surface: a barycentric lattice strictly inside every face plus face-edge midpoints and
+    the vertices (deterministic)"""
+    t = _tri(v, f)
+    per = max(1, int(np.ceil(m / len(t))))
+    q = 1
+    while (q + 1) * (q + 2) // 2 < per:
+        q += 1
+    pts = []
+    for tri in t:
+        for i in range(q + 1):
+            for j in range(q + 1 - i):
+                a, b = (i + 1 / 3) / (q + 1), (j + 1 / 3) / (q + 1)
+                pts.append(tri[0] + a * (tri[1] - tri[0]) + b * (tri[2] - tri[0]))
+        pts += [0.5 * (tri[0] + tri[1]), 0.5 * (tri[1] + tri[2]), tri[0]]
+    return np.asarray(pts)
+
+
+def edge_dist(v, f, p):
+    """distance of points p to the nearest edge segment of the triangulation"""
+    t = _tri(v, f)
+    p = np.asarray(p, dtype=np.float64)
+    best = np.full(len(p), np.inf)
+    for tri in t:
+        for i in range(3):
+            a, b = tri[i], tri[(i + 1) % 3]
+            ab = b - a
+            s = np.clip((p - a) @ ab / (ab @ ab), 0, 1)
+            best = np.minimum(best, np.linalg.norm(p - (a + s[:, None] * ab), axis=1))
+    return best
+
+
 def box(v):
     v = np.asarray(v, dtype=np.float64)
     return np.stack([v.min(0), v.max(0)], 1)
@@ -64,7 +96,7 @@ def write_stl(path, v, f):
         fh.write("endsolid s\n")
 
 
-def build(shape, winding, source, tmpdir):
+def build(shape, winding, source, tmpdir=None):
     """the real TrimeshPolyhedron for `shape` with `winding` in {'out','in'} built from `source` in {'arrays','file'}"""
     from torchphysics.problem.domains.domain3D.trimesh_polyhedron import TrimeshPolyhedron
     from torchphysics.problem.spaces import Space
@@ -73,6 +105,12 @@ def build(shape, winding, source, tmpdir):
         f = flipped(f)
     if source == "arrays":
         return TrimeshPolyhedron(Space({"x": 3}), vertices=v, faces=f)
+    if tmpdir is None:
+        import tempfile
+        tmpdir = tempfile.mkdtemp(prefix="tpmc_mesh_")
     path = os.path.join(tmpdir, "%s_%s.stl" % (shape, winding))
     write_stl(path, v, f)
-    return TrimeshPolyhedron(Space({"x": 3}), file_name=path, file_type="stl")
+    dom = TrimeshPolyhedron(Space({"x": 3}), file_name=path, file_type="stl")
+    if tmpdir.startswith(os.path.join(__import__("tempfile").gettempdir(), "tpmc_mesh_")):
+        __import__("shutil").rmtree(tmpdir, ignore_errors=True)
+    return dom
